@@ -130,7 +130,7 @@ def handleStrs (sc tr : Json) : Json :=
     (modelStr s total).filterMap fun (f, m) =>
       let i := jstr r f
       if i == m then none
-      else if tol > 0 && (f == "sz" || f == "sp") && closeTo i m tol then none
+      else if tol > 0 && (f == "sz" || f == "sp") && (closeTo i m tol || i == "R" || m == "R") then none
       else some (Json.mkObj [("s", Json.str str), ("f", Json.str f), ("model", Json.str m), ("impl", Json.str i)])
   let viols := pairs.flatMap fun (str, r) =>
     propFields.filterMap fun f =>
@@ -170,15 +170,18 @@ def objList (j : Json) : List (String × Json) :=
 
 def strMap (j : Json) : List (Str × Str) := (objList j).map fun (k, v) => (k.toList, (asStr v).toList)
 
+/-- the machine as the harness set it up: `@MEMINFO` is the scratch meminfo file with the
+    scenario's totals, no location is /proc/meminfo of the host, any other path does not exist -/
 def envOf (sc tr : Json) : Env :=
   let mem : Int := ((jstr sc "memtotal_kb").toInt?.getD 16000000) * 1024
   let swap : Int := ((jstr sc "swaptotal_kb").toInt?.getD 2000000) * 1024
-  let bad := jbool sc "meminfo_missing"
+  let pick (host : Option Int) (file : Int) (loc : Option Str) : Option Int :=
+    match loc with
+    | none => host
+    | some p => if p == "@MEMINFO".toList then some file else none
   { fs := "/sys/fs/cgroup".toList
-    memTotal := if bad then none else some mem
-    swapTotal := if bad then none else some swap
-    hostMemTotal := (jstr tr "host_memtotal").toInt?
-    hostSwapTotal := (jstr tr "host_swaptotal").toInt? }
+    memAt := pick (jstr tr "host_memtotal").toInt? mem
+    swapAt := pick (jstr tr "host_swaptotal").toInt? swap }
 
 def irPluginOf (j : Json) : IRPlugin := ⟨(jstr j "name").toList, strMap (jobj j "args")⟩
 
@@ -286,9 +289,14 @@ def engineViol (env : Env) (ir : IRRoot) (i : Json) : List String :=
 
 def isEscape (r : String) : Bool := r.startsWith "uncaught"
 
+/-- input-class key: the clause, for an escape also the exception type -/
 def classOf (viol : List String) : String :=
   match viol with
-  | v :: _ => (v.splitOn ":").headD v
+  | v :: _ =>
+    match v.splitOn ":" with
+    | "escape" :: rest => "escape:" ++ ":".intercalate (rest.drop 1)
+    | c :: _ => c
+    | [] => v
   | [] => ""
 
 def handleInit (sc tr : Json) : Json :=
@@ -399,6 +407,14 @@ def argsKept (tree irj : Json) : List String :=
     if ds.length != is.length then ["plugin-count"] else (ds.zip is).flatMap fun (a, b) => one a b
   (if d.1.length != i.1.length then ["ruleset-count"] else (d.1.zip i.1).flatMap fun (a, b) => lists a b) ++ lists d.2 i.2
 
+/-- the harness substitutes the scratch path of its meminfo file for `@MEMINFO` -/
+partial def normMeminfo (j : Json) : Json :=
+  match j with
+  | Json.str s => if (s.splitOn "/cfg-").length > 1 && s.endsWith "/meminfo" then Json.str "@MEMINFO" else j
+  | Json.arr a => Json.arr (a.map normMeminfo)
+  | Json.obj kvs => Json.obj (kvs.foldl (init := {}) fun acc k v => acc.insert k (normMeminfo v))
+  | _ => j
+
 def docOf (sc tr : Json) (treeKey parseKey : String) : Option (Option JVal) :=
   -- jsoncpp's verdict on the syntax is taken from the harness; the tree from the scenario
   if (jstr tr parseKey).startsWith "E:std::runtime_error" then some none
@@ -413,12 +429,12 @@ def handleLoad (sc tr : Json) : Json :=
   match docOf sc tr "tree" "parse" with
   | none =>
     -- a text Python cannot read but jsoncpp can: outside the model, only "no escape" is checked
-    verdict id true (!esc) (if esc then ["escape:" ++ r] else []) (if esc then "escape" else "") [("model", Json.str "unmodelled-syntax")]
+    verdict id true (!esc) (if esc then ["escape:" ++ r] else []) (classOf (if esc then ["escape:" ++ r] else [])) [("model", Json.str "unmodelled-syntax")]
   | some doc =>
     let pj := (parseJson doc).catchAll
     let m := load env doc
     let irAgree := match pj with
-      | .ok ir => !jhas tr "ir" || irToJson ir == jobj tr "ir"
+      | .ok ir => !jhas tr "ir" || irToJson ir == normMeminfo (jobj tr "ir")
       | _ => !jhas tr "ir"
     let acc := !esc && irAgree && (match m with
       | .ok e => r == "accepted" && engineAgrees e (jobj tr "engine")
@@ -426,12 +442,12 @@ def handleLoad (sc tr : Json) : Json :=
       | .throws _ => false)
     let viol := (if esc then ["escape:" ++ r] else []) ++
       (if r == "accepted" then
-        engineViol env (irOf (jobj tr "ir")) (jobj tr "engine") ++
+        engineViol env (irOf (normMeminfo (jobj tr "ir"))) (jobj tr "engine") ++
         (if jhas sc "tree" then argsKept (jobj sc "tree") (jobj tr "ir") else [])
        else [])
     verdict id acc viol.isEmpty viol (classOf viol)
-      [("model", Json.str (match m with | .ok _ => "accepted" | .rejected => "rejected" | .throws _ => "throws")),
-       ("ir_agree", Json.bool irAgree)]
+      ([("model", Json.str (match m with | .ok _ => "accepted" | .rejected => "rejected" | .throws _ => "throws")),
+       ("ir_agree", Json.bool irAgree)] ++ (if irAgree then [] else [("model_ir", match pj with | .ok ir => irToJson ir | _ => Json.null)]))
 
 def dropinRulesetsOf (engine : Json) : List Json :=
   (jarr engine "rulesets").flatMap fun r => jarr r "dropins"
@@ -460,7 +476,7 @@ def handleDropIn (sc tr : Json) : Json :=
     let viol := (if esc then ["escape:" ++ r] else []) ++
       (if r == "rejected" && !jbool tr "engine_unchanged" then ["rejected-dropin-changed-engine"] else []) ++
       (if r == "accepted" && jhas tr "dropin_ir" then
-        let dir := irOf (jobj tr "dropin_ir")
+        let dir := irOf (normMeminfo (jobj tr "dropin_ir"))
         -- every drop-in ruleset targets a base ruleset and is valid; the merged plugins are the drop-in's
         dir.rulesets.flatMap (fun d =>
           (if root.rulesets.any (fun b => b.name == d.name) then [] else ["dropin-without-target-accepted"]) ++
@@ -471,7 +487,7 @@ def handleDropIn (sc tr : Json) : Json :=
     verdict id acc viol.isEmpty viol (classOf viol)
       [("model", Json.str (match m with | .ok _ => "accepted" | .rejected => "rejected" | .throws _ => "throws"))]
   | _, _ =>
-    verdict id true (!esc) (if esc then ["escape:" ++ r] else []) (if esc then "escape" else "") [("model", Json.str "unmodelled")]
+    verdict id true (!esc) (if esc then ["escape:" ++ r] else []) (classOf (if esc then ["escape:" ++ r] else [])) [("model", Json.str "unmodelled")]
 
 def handle (j : Json) : Json :=
   let sc := jobj j "s"
